@@ -298,6 +298,149 @@ def feedSegs (cfg : Config) (st : St) (segs : List Bytes) : St × List Action :=
 /-- all actions of a connection that receives the segments and then EOF -/
 def run (cfg : Config) (segs : List Bytes) : List Action := (feedSegs cfg St.init segs).2
 
+/-! ## connection buffers come from a shared pool (`BufferPoolAsync`, connection_pool.rs)
+
+`OptimizedConnectionHandler::new` ACQUIRES its read buffer and then its write buffer from the
+pool shared by all connections of the server and uses them as they come; `run` RELEASES both
+when the connection ends (clean EOF, EOF in the middle of a frame, write error, buffer overflow),
+whatever is still in them.  `BufferPoolAsync::release` clears the buffer and pushes it into a
+bounded FIFO queue (`ArrayQueue`) if `buf.capacity() <= capacity * 2` and the queue is not full;
+`acquire` pops the oldest buffer, or allocates a new empty one when the queue is empty.  Whether
+the capacity test passes depends on `BytesMut`'s growth policy, which is not modelled: it is an
+input (`keep`) of `release`, and the theorems hold for every choice. -/
+
+/-- contents of a pooled buffer: bytes received but not yet parsed (read role) or replies encoded
+    but not yet written (write role; kept as the actions that produced them) -/
+inductive Buf where
+  | bytes (b : Bytes)
+  | pending (a : List Action)
+  deriving Repr, Inhabited
+
+def Buf.empty : Buf := .bytes []
+
+def Buf.isEmpty : Buf → Bool
+  | .bytes b => b.isEmpty
+  | .pending a => a.isEmpty
+
+structure Pool where
+  /-- capacity of the `ArrayQueue` (`buffer_pool_size`) -/
+  size : Nat
+  /-- `buf.clear()` in `release` (true = the code as it is) -/
+  clears : Bool
+  /-- queued buffers, oldest first -/
+  q : List Buf
+  deriving Repr
+
+/-- `BufferPoolAsync::new(size, 8192)`: the queue is pre-filled with `size` empty buffers -/
+def Pool.init (size : Nat) (clears : Bool) : Pool := ⟨size, clears, List.replicate size Buf.empty⟩
+
+/-- `pool.pop().unwrap_or_else(|| BytesMut::with_capacity(..))` -/
+def Pool.acquire (p : Pool) : Buf × Pool :=
+  match p.q with
+  | [] => (Buf.empty, p)
+  | b :: rest => (b, { p with q := rest })
+
+/-- `buf.clear(); if buf.capacity() <= capacity * 2 { let _ = pool.push(buf); }` — `keep` is the
+    outcome of the capacity test; a push into a full queue is dropped -/
+def Pool.release (p : Pool) (b : Buf) (keep : Bool) : Pool :=
+  if keep ∧ p.q.length < p.size then { p with q := p.q ++ [if p.clears then Buf.empty else b] } else p
+
+/-- one client connection: the network segments it sends before it closes (an EOF in the middle of
+    a frame is simply a last segment that ends early), and the index of the flush (0-based) at
+    which writing to it fails (the client is gone or has stopped reading), if any -/
+structure ConnSpec where
+  segs : List Bytes
+  failAt : Option Nat
+  deriving Repr
+
+/-- what a connection starts from, given the buffers it acquired.  A non-empty read-role buffer is
+    input that precedes the client's bytes, a non-empty write-role buffer is output that precedes
+    its replies; a non-empty buffer of the other role is bytes of the wrong kind: `.stale` -/
+inductive Action' where
+  | act (a : Action)
+  | stale            -- bytes left behind by another connection, of unmodelled content
+  deriving Repr, Inhabited
+
+structure IOSt where
+  st : St
+  wbuf : List Action      -- encoded, not yet written
+  flushes : Nat
+  out : List Action       -- written to the client, in order
+  ended : Bool            -- the read loop was left
+  deriving Repr
+
+/-- one `read()` followed by the flush at the end of the loop body -/
+def ioRead (cfg : Config) (failAt : Option Nat) (s : IOSt) (chunk : Bytes) : IOSt :=
+  if s.ended then s
+  else
+    let (st', acts) := onRead cfg s.st chunk
+    let w := s.wbuf ++ acts
+    if st'.closed then
+      -- buffer overflow: `let _ = write_all(..)` (result ignored), `break` — the write buffer is NOT
+      -- cleared; panic: the task is gone
+      { st := st', wbuf := w, flushes := s.flushes,
+        out := if failAt = some s.flushes then s.out else s.out ++ w, ended := true }
+    else if w = [] then { s with st := st' }
+    else if failAt = some s.flushes then
+      -- `write_all` fails: `break`, the replies stay in the write buffer
+      { st := st', wbuf := w, flushes := s.flushes, out := s.out, ended := true }
+    else { st := st', wbuf := [], flushes := s.flushes + 1, out := s.out ++ w, ended := false }
+
+/-- a whole connection from the buffers it acquired: what the client received, and the contents
+    of the read and the write buffer when they are released -/
+def runConn (cfg : Config) (rb wb : Buf) (spec : ConnSpec) : List Action' × Buf × Buf :=
+  let rd0 : Option Bytes := match rb with
+    | .bytes b => some b
+    | .pending a => if a.isEmpty then some [] else none
+  let wr0 : Option (List Action) := match wb with
+    | .pending a => some a
+    | .bytes b => if b.isEmpty then some [] else none
+  match rd0, wr0 with
+  | some b, some w =>
+    let s0 : IOSt := { st := ⟨b, false, false⟩, wbuf := w, flushes := 0, out := [], ended := false }
+    let s := (spec.segs.flatMap (fun x => splitReads cfg.readSize x.length x)).foldl (ioRead cfg spec.failAt) s0
+    (s.out.map Action'.act, .bytes s.st.buf, .pending s.wbuf)
+  | _, _ => ([.stale], rb, wb)
+
+/-- server events: connection `i` is accepted (acquires its buffers, is served to its end — what
+    happens on one connection does not depend on the others except through the pool) / connection
+    `i`'s task finishes (releases its buffers; `keepR`, `keepW` = outcomes of the capacity tests) -/
+inductive Ev where
+  | start (i : Nat)
+  | finish (i : Nat) (keepR keepW : Bool)
+  deriving Repr
+
+structure Srv where
+  pool : Pool
+  /-- connections being served: id, buffers to release -/
+  live : List (Nat × Buf × Buf)
+  /-- what each accepted connection's client received -/
+  outs : List (Nat × List Action')
+  deriving Repr
+
+def srvStep (cfg : Config) (specs : List ConnSpec) (s : Srv) : Ev → Srv
+  | .start i =>
+    match specs[i]? with
+    | none => s
+    | some spec =>
+      let (rb, p1) := s.pool.acquire
+      let (wb, p2) := p1.acquire
+      let (out, rb', wb') := runConn cfg rb wb spec
+      { pool := p2, live := (i, rb', wb') :: s.live, outs := s.outs ++ [(i, out)] }
+  | .finish i keepR keepW =>
+    match s.live.find? (fun x => x.1 = i) with
+    | none => s
+    | some (_, rb, wb) =>
+      { s with pool := (s.pool.release rb keepR).release wb keepW,
+               live := s.live.filter (fun x => ¬ (x.1 = i)) }
+
+/-- a server with one shared pool serving the connections in the order of the events -/
+def serve (cfg : Config) (pool : Pool) (specs : List ConnSpec) (evs : List Ev) : Srv :=
+  evs.foldl (srvStep cfg specs) ⟨pool, [], []⟩
+
+/-- connections one after the other -/
+def seqEvents (n : Nat) : List Ev := (List.range n).flatMap (fun i => [Ev.start i, Ev.finish i true true])
+
 /-! ## reference executor of the correspondence (strings only)
 
 GET / SET key value / PING / ECHO, MULTI … EXEC / DISCARD; anything else is answered with an
